@@ -56,7 +56,12 @@ def main():
                 print("SENS %s %s: BROKEN (pattern not found in %s)" % (pid, label, f)); return 2
             open(p, "w").write(s.replace(old, new, 1))
         for pf in patches:
-            subprocess.run(["git", "-C", wt, "apply", os.path.abspath(pf)], check=True)
+            r = subprocess.run(["git", "-C", wt, "apply", os.path.abspath(pf)], stderr=subprocess.PIPE)
+            if r.returncode != 0:
+                # the tree moved on since the patch was written (hook lines added nearby): apply with fuzz
+                r = subprocess.run(["patch", "-p1", "-F3", "-s", "-i", os.path.abspath(pf)], cwd=wt, stdout=subprocess.PIPE, stderr=subprocess.STDOUT, text=True)
+                if r.returncode != 0:
+                    print("SENS %s %s: BROKEN (patch does not apply: %s)" % (pid, label, r.stdout[-300:])); return 2
         env = dict(os.environ, VERIF_REPO=wt, VERIF_SEED=seed)
         if onlyfiles:
             env["VERIF_ONLY_FILES"] = onlyfiles
